@@ -38,6 +38,7 @@ class Kind(enum.IntEnum):
 
 
 RAWS_SEEN = {}          # per run (cleared in execute): root class -> raw inputs generated so far
+BIG = [False]           # per run (1 in 16): values may be large (lists of hundreds of elements, byte strings of kilobytes)
 VALUES_SEEN = {}        # per run: ints / byte strings handed out so far (re-used now and then: equal values)
 WATCHDOG_S = 20.0
 MAX_EVENTS_PER_RUN = 400000
@@ -218,7 +219,7 @@ def value_spec_like(v, env, ch, u, depth=0):
     if isinstance(v, list):
         if not v:
             return ("newlist", ())
-        n = ch.draw("list-len", 4)
+        n = ch.draw("list-len", 4) if not BIG[0] else [0, 1, 2, 3, 17, 260, 700][ch.weighted("list-len", [2, 2, 2, 2, 2, 2, 1])]
         items = []
         for i in range(n):
             s = value_spec_like(v[i % len(v)], env, ch, u, depth + 1)
@@ -256,8 +257,11 @@ def value_spec_like(v, env, ch, u, depth=0):
         if bag and ch.chance("equal-value-again", 1, 5):
             return bag[ch.draw("which-earlier-value", len(bag))]
         n = len(v) if (v and ch.chance("same-length", 3, 4)) else ch.draw("bytes-len", 5)
+        if BIG[0] and ch.chance("big-bytes", 1, 2):
+            n = [300, 4097, 70000][ch.draw("big-bytes-len", 3)]
         x = u.bytes(n)
-        bag.append(x)
+        if n < 64:
+            bag.append(x)
         return x
     return None
 
@@ -603,7 +607,7 @@ class World:
 class ThreadEngine(Engine):
     prop = "C13"
     name = "threadsim"
-    tiers = {"quick": 4000, "thorough": 400000}
+    tiers = {"quick": 4000, "thorough": 250000}
     chunks = {"quick": 20, "thorough": 200}
     watchdog_s = 900
     shrink_budget = 200
@@ -626,7 +630,7 @@ class ThreadEngine(Engine):
                        "CPython threads (one runnable at a time)"]
     stub_components = ["the OS thread scheduler (replaced by the baton: the Chooser decides every switch)"]
     expected_probes = ["two-ops-in-flight", "same-class-two-threads", "aborted-parse-then-bystander-op", "whole-op-interleaving",
-                       "generated-path", "generic-path", "funclevel-decl", "duel-sweeps", "prototype-instance-mutated"]
+                       "generated-path", "generic-path", "funclevel-decl", "duel-sweeps", "prototype-instance-mutated", "big-values"]
 
     def init_worker(self, tree, wdir):
         self.tree = tree
@@ -676,6 +680,9 @@ class ThreadEngine(Engine):
         pdir = project.fresh_dir(os.path.join(self.wdir, "p13"))
         RAWS_SEEN.clear()
         VALUES_SEEN.clear()
+        BIG[0] = ch.chance("big-values", 1, 16)
+        if BIG[0]:
+            st["probe:big-values"] += 1
         names, opt = self._world_draws(ch, st)
         source = decls.source_for(names, opt)
         modname = "c13_run"
@@ -891,4 +898,4 @@ def _fmt_op(op):
 
 def _fmt_obs(obs):
     s = repr(obs)
-    return s if len(s) < 300 else s[:300] + "..."
+    return s if len(s) < 300 else s[:300] + "...(%d chars, %s)" % (len(s), digest(s))
